@@ -454,6 +454,16 @@ def rule_r5(ctx, an: Anchors, gs: GenBranch, ga: GenBranch) -> None:
     for g in (gs, ga):
         f = g.f
         cfg = a.cfg(f)
+        # whether the product is awaitable is decided from the PRODUCT (a plain callable may
+        # return a coroutine): every un-awaited call of the factory callback is followed by an
+        # isawaitable()/iscoroutine() test of its result before that result is stored
+        plain = [n for n in cfg.live_nodes() if n.kind == "stmt" and isinstance(n.ast, ast.Assign) and isinstance(n.ast.value, ast.Call) and isinstance(n.ast.value.func, ast.Attribute) and isinstance(n.ast.value.func.value, ast.Name) and n.ast.value.func.value.id == g.factory_var and n.ast.value.func.attr == g.callback_field and isinstance(n.ast.targets[0], ast.Name)]
+        for pn in plain:
+            v_ = pn.ast.targets[0].id
+            tests_ = [t.id for t in cfg.live_nodes() if t.kind == "test" and any(isinstance(c_, ast.Call) and call_name(c_) in ("isawaitable", "iscoroutine", "isfuture") and c_.args and isinstance(c_.args[0], ast.Name) and c_.args[0].id == v_ for c_ in ast.walk(t.ast))]
+            sids_ = [s.id for s, _ in g.stores]
+            ok_ = bool(tests_) and bool(sids_) and all(cfg.all_paths_pass(pn.id, [sid], tests_, edge_ok=lambda s_, d_, lab: lab not in ("e", "h")) for sid in sids_ if sid in cfg.reach([pn.id]))
+            rep.check("C04.R5", ok_, f, pn.ast, "the factory's product is tested for being awaitable before it is stored", "a product of the factory callback can be stored without having been tested with isawaitable()/iscoroutine(): a plain callable returning a coroutine (lambda, partial, object with async __call__) leaves the un-awaited coroutine registered as the resource")
         for n, m in g.stores:
             recv_ok = any(p[:-1] == ("self",) for p in expand_alias(f, m.path))
             rep.check("C04.R5", recv_ok, f, m.node, "generated value is stored in the requesting context (self)", f"generated value is stored in {'.'.join(m.path)}, not in the requesting context")
